@@ -279,3 +279,121 @@ def eval_guard(e: ast.AST, subst, call_hook=None):
 
 def numeric_constants(e: ast.AST):
     return [abs(n.value) for n in ast.walk(e) if isinstance(n, ast.Constant) and isinstance(n.value, (int, float)) and not isinstance(n.value, bool)]
+
+
+# ------------------------------------------------------------- symbolic evaluation of straight-line functions
+CMP = {ast.Gt: "gt", ast.GtE: "ge", ast.Lt: "lt", ast.LtE: "le", ast.Eq: "eq", ast.NotEq: "ne"}
+
+
+class SymEval:
+    """Evaluate straight-line tensor functions to sympy expressions, inlining calls to methods of one concrete class
+    (resolved through the index / MRO) and to module-level functions of the repository.  No branching: an `if` in an
+    inlined body is an unsupported idiom (NFUnsupported)."""
+
+    def __init__(self, ix, cls=None, atoms=None, max_depth=8):
+        self.ix = ix
+        self.cls = cls
+        self.atoms = dict(atoms or {})  # source text -> sympy value (e.g. 'x.value' -> x)
+        self.max_depth = max_depth
+
+    def call(self, func, args, kwargs=None, depth=0):
+        """func: index Func; args: list of sympy values (already without cls/self)."""
+        if depth > self.max_depth:
+            raise NFUnsupported("call depth")
+        node = func.node
+        a = node.args
+        params = [p.arg for p in a.posonlyargs + a.args]
+        if func.kind in ("class", "method") and params and params[0] in ("cls", "self"):
+            params = params[1:]
+        env = {}
+        args = list(args)
+        for i, p in enumerate(params):
+            if i < len(args):
+                env[p] = args[i]
+            elif kwargs and p in kwargs:
+                env[p] = kwargs[p]
+            else:
+                d = a.defaults[i - (len(params) - len(a.defaults))] if i >= len(params) - len(a.defaults) else None
+                if d is None:
+                    raise NFUnsupported(f"missing argument {p} of {func.qual}")
+                env[p] = self._nz(env, func, depth).tosym(d)
+        if a.vararg:
+            env["*" + a.vararg.arg] = tuple(args[len(params):])
+        for p in a.kwonlyargs:
+            if kwargs and p.arg in kwargs:
+                env[p.arg] = kwargs[p.arg]
+        return self.body(func, env, depth)
+
+    def _nz(self, env, func, depth):
+        ev = self
+
+        def hook(nz, e):
+            f = e.func
+            # cls.method(...) / self.method(...) / ClassName.method(...)
+            if isinstance(f, ast.Attribute) and isinstance(f.value, ast.Name) and f.value.id in ("cls", "self") and ev.cls is not None:
+                m = ev.ix.method(ev.cls, f.attr)
+                if m is not None:
+                    return ev.call(m, ev._args(nz, e, env), ev._kwargs(nz, e), depth + 1)
+            if isinstance(f, ast.Name):
+                r = ev.ix.lookup(func.mod, f.id)
+                if r and r[0] == "def" and isinstance(r[2], ast.FunctionDef):
+                    return ev.call(ev.ix.funcs[(r[1], r[2].name)], ev._args(nz, e, env), ev._kwargs(nz, e), depth + 1)
+            return None
+
+        class N(Normalizer):
+            def tosym(self, e):
+                t = U(e)
+                if t in ev.atoms:
+                    return ev.atoms[t]
+                if isinstance(e, ast.Compare) and len(e.ops) == 1 and type(e.ops[0]) in CMP:
+                    return sp.Function("cmp_" + CMP[type(e.ops[0])])(self.tosym(e.left), self.tosym(e.comparators[0]))
+                if isinstance(e, ast.Tuple):
+                    return tuple(self.tosym(x) for x in e.elts)
+                if isinstance(e, ast.Subscript) and isinstance(e.value, ast.Call):
+                    v = self.tosym(e.value)
+                    if isinstance(v, tuple) and isinstance(e.slice, ast.Constant):
+                        return v[e.slice.value]
+                return super().tosym(e)
+
+        return N(env, call_hook=hook)
+
+    def _args(self, nz, e, env):
+        out = []
+        for a_ in e.args:
+            if isinstance(a_, ast.Starred):
+                v = env.get("*" + U(a_.value))
+                if v is None:
+                    raise NFUnsupported(f"starred argument {U(a_)}")
+                out.extend(v)
+            else:
+                out.append(nz.tosym(a_))
+        return out
+
+    def _kwargs(self, nz, e):
+        return {k.arg: nz.tosym(k.value) for k in e.keywords if k.arg}
+
+    def body(self, func, env, depth):
+        nz = self._nz(env, func, depth)
+        for st in func.node.body:
+            if isinstance(st, ast.Expr) and isinstance(st.value, ast.Constant):
+                continue
+            if isinstance(st, ast.Assign) and len(st.targets) == 1:
+                v = nz.tosym(st.value)
+                t = st.targets[0]
+                if isinstance(t, ast.Name):
+                    nz.env[t.id] = v
+                elif isinstance(t, ast.Tuple) and isinstance(v, tuple) and len(v) == len(t.elts):
+                    for tt, vv in zip(t.elts, v):
+                        if isinstance(tt, ast.Name):
+                            nz.env[tt.id] = vv
+                else:
+                    raise NFUnsupported(f"assignment {U(st)[:60]}")
+            elif isinstance(st, ast.AnnAssign) and isinstance(st.target, ast.Name) and st.value is not None:
+                nz.env[st.target.id] = nz.tosym(st.value)
+            elif isinstance(st, ast.Return):
+                return nz.tosym(st.value)
+            elif isinstance(st, (ast.Pass, ast.Import, ast.ImportFrom)):
+                continue
+            else:
+                raise NFUnsupported(f"statement {type(st).__name__} in {func.qual}")
+        return None
